@@ -5,6 +5,7 @@ import "strings"
 func init() {
 	vHarnesses["H_C08_keys"] = H_C08_keys
 	vHarnesses["H_C08_keys_deep"] = H_C08_keys_deep
+	vHarnesses["H_C08_keys_fan"] = H_C08_keys_fan
 	vHarnesses["H_C08_subkeys"] = H_C08_subkeys
 	vHarnesses["H_C08_subkeys_num"] = H_C08_subkeys_num
 	vHarnesses["H_C08_subkeys_mixed"] = H_C08_subkeys_mixed
@@ -294,6 +295,11 @@ func vC08keys(spec vSpec, relation bool) {
 
 func H_C08_keys() {
 	vC08keys(vSpec{Depth: vP("depth", 2, 3), Width: vP("width", 2, 2), Kinds: "mlsn", KeyAlpha: "ab", KeyMin: 1, KeyMax: 1, StrAlpha: "x", StrMax: 0, NoListInList: true}, true)
+}
+
+// lists of two members below maps of one entry: the key directly in one member and deeper in another
+func H_C08_keys_fan() {
+	vC08keys(vSpec{Depth: vP("depth", 4, 5), Width: vP("width", 2, 2), MapWidth: 1, Kinds: "mls", KeyAlpha: "ab", KeyMin: 1, KeyMax: 1, StrAlpha: "x", StrMax: 0, NoListInList: true}, true)
 }
 
 func H_C08_keys_deep() {
